@@ -16,6 +16,9 @@
 #define IORA_SMAP1_H
 typedef struct { const char *p; size_t n; bool is_g; } iora_skey;
 iora_skey G_skey_last; bool G_skey_made;      /* ghost: the key object made last (so a contract can speak about a key that was NOT applied) */
+#ifdef IORA_NATIVE
+const char *G_native_gkey_p; size_t G_native_gkey_n;   /* differential run: content of THE ghost key */
+#endif
 /* std::string key(ptr, n) */
 static inline iora_skey iora_skey_make(const char *p, size_t n)
 {
@@ -24,7 +27,9 @@ static inline iora_skey iora_skey_make(const char *p, size_t n)
 #ifndef IORA_NATIVE
   k.is_g = nondet_bool();
 #else
-  k.is_g = false;
+  /* differential run (tools/diffrun.py): THE ghost key is a concrete byte string chosen by the driver; a key is the ghost key iff its
+   * content equals it (the witness entry is then exact for that key; the driver repeats the run once per key it wants to observe) */
+  k.is_g = G_native_gkey_p != NULL && n == G_native_gkey_n && (n == 0 || memcmp(p, G_native_gkey_p, n) == 0);
 #endif
   G_skey_last = k; G_skey_made = true;
   return k;
